@@ -10,7 +10,6 @@ import (
 	"time"
 
 	"cosmossdk.io/math"
-	storetypes "cosmossdk.io/store/types"
 	"github.com/cosmos/cosmos-sdk/runtime"
 	sdk "github.com/cosmos/cosmos-sdk/types"
 	authtypes "github.com/cosmos/cosmos-sdk/x/auth/types"
@@ -371,7 +370,7 @@ func (w *World) exportImport(ctx sdk.Context) error {
 
 func wipeStore(ctx sdk.Context, w *World) {
 	store := runtime.KVStoreAdapter(w.App.AllianceKeeper.StoreService().OpenKVStore(ctx))
-	it := storetypes.KVStorePrefixIterator(store, []byte{})
+	it := store.Iterator(nil, nil)
 	var keys [][]byte
 	for ; it.Valid(); it.Next() {
 		keys = append(keys, append([]byte{}, it.Key()...))
